@@ -12,6 +12,7 @@ CONSTANTS
   CfiLayouts = {"none"}
   Isa = "arm64"
   WithScopes = FALSE
+  Fmts = {"elf"}
   WholeOnly = FALSE
   Leads = {0}
   DropFnTables = {FALSE}
